@@ -15,7 +15,7 @@ import (
 
 var c10Nums = []float64{0, 1, 2, 1.5, -1, 100, 0.1, 1e21, 1e-7, 3}
 var c10NumLits = []string{"0", "1", "1.0", "1e0", "+1", "2", "1.5", "15e-1", "-1", "100", "1e2", "0.1", "1e21", "1e-7", "3", "-0", "0.0"}
-var c10Strs = []string{"a", "b", "", "1", "ab", "true", "null", "1.0"}
+var c10Strs = []string{"a", "b", "", "1", "ab", "true", "null", "1.0", "ba", "aab", "11", "untrue"}
 
 func c10Leaf(r *rand.Rand) interface{} {
 	switch r.Intn(8) {
@@ -271,7 +271,7 @@ func runC10(c *harness.Ctx, sysq []*spec.Query) {
 			at.Steps = []spec.Step{{Kind: spec.KUnion, Subs: []spec.Sub{{Kind: spec.SIndex, N: 0}}}}
 		}
 		if r.Intn(7) == 0 {
-			q = &spec.Query{Op: spec.QRegex, P: at, Re: []string{"a", "^1", "", "^(true|null)$", "."}[r.Intn(5)]}
+			q = &spec.Query{Op: spec.QRegex, P: at, Re: []string{"a", "^1", "", "^(true|null)$", ".", "^a$", "^1$", `\Aab\z`, "^true$", "b$"}[r.Intn(10)]}
 		} else {
 			op := gen.CmpOps[r.Intn(len(gen.CmpOps))]
 			var other spec.Operand
